@@ -111,13 +111,24 @@ Lemma binary_incomplete_reset_witness :
   deliveries (bin_feed cfg_server bin_init [firstn 4 f; skipn 4 f]) = [].
 Proof. cbv zeta. repeat split; vm_compute; reflexivity. Qed.
 
-(* binary: advanceFrame drops len+2 bytes although the frame is len+1 bytes long: the '{' of
-   a following frame in the same read is lost and that frame is discarded *)
-Lemma binary_advance_skip_witness :
+(* binary (FIXED in /repo: advanceFrame drops exactly the frame): several frames in one read are all
+   delivered; a trailing '{' of the next frame is kept *)
+Lemma binary_pipelined_fixed_witness :
   let fa := spec_adu_binary 1 pdu_a in let fb := spec_adu_binary 1 pdu_b in
   no_delim (with_crc (1 :: pdu_a)) = true /\ no_delim (with_crc (1 :: pdu_b)) = true /\
   deliveries (bin_feed cfg_server bin_init [fa; fb]) = [(pdu_a, 1%Z); (pdu_b, 1%Z)] /\
-  deliveries (bin_feed cfg_server bin_init [fa ++ fb]) = [(pdu_a, 1%Z)].
+  deliveries (bin_feed cfg_server bin_init [fa ++ fb]) = [(pdu_a, 1%Z); (pdu_b, 1%Z)] /\
+  deliveries (bin_feed cfg_server bin_init [fa ++ fb ++ firstn 1 fa; skipn 1 fa]) = [(pdu_a, 1%Z); (pdu_b, 1%Z); (pdu_a, 1%Z)].
+Proof. cbv zeta. repeat split; vm_compute; reflexivity. Qed.
+
+(* binary (still open, #19): a frame for a unit that is not served resets the buffer, the frames
+   behind it in the same read are lost *)
+Lemma binary_foreign_unit_witness :
+  let cfg := {| cf_dec := fun _ => DMsg; cf_rules := server_decoder; cf_units := [1%Z]; cf_single := false |} in
+  let fa := spec_adu_binary 1 pdu_a in let ff := spec_adu_binary 9 pdu_b in
+  no_delim (with_crc (9 :: pdu_b)) = true /\
+  deliveries (bin_feed cfg bin_init [fa ++ ff ++ fa]) = [(pdu_a, 1%Z)] /\
+  deliveries (bin_feed cfg bin_init [fa; ff; fa]) = [(pdu_a, 1%Z); (pdu_a, 1%Z)].
 Proof. cbv zeta. repeat split; vm_compute; reflexivity. Qed.
 
 (* ---------------------------------------------------------------- C11 *)
@@ -142,11 +153,19 @@ Lemma rtu_undecodable_deaf_witness :
   deliveries (rtu_feed cfg rtu_init [bad; f; f; f]) = [].
 Proof. cbv zeta. split; vm_compute; reflexivity. Qed.
 
-(* RTU, response direction: garbage "01 18 FF FF" makes the Read FIFO Queue oracle ask for
-   (0xFF << 16) + 0xFF + 6 = 16 711 941 bytes: following valid frames only pile up *)
-Lemma rtu_fifo_size_witness :
+(* RTU, response direction (FIXED in /repo: 16-bit byte count): garbage "01 18 01 00" now asks for
+   (1 << 8) + 0 + 6 = 262 bytes (it was 65 542): once they are there the CRC fails, the buffer is dropped
+   and the following valid frames are delivered *)
+Lemma rtu_fifo_size_fixed_witness :
+  let f := spec_adu_rtu 1 (3 :: 250 :: repeat 7 250) in
+  frame_size (lookup_rule client_decoder 24) [1; 24; 1; 0] = Ok 262%Z /\
+  length (deliveries (rtu_feed cfg_client rtu_init [[1; 24; 1; 0]; f; f; f; f])) = 2%nat.
+Proof. cbv zeta. split; vm_compute; reflexivity. Qed.
+
+(* ... but the extent can still be 65 541 bytes (hi byte 0xFF): far more than two maximum frames *)
+Lemma rtu_fifo_extent_witness :
   let f := spec_adu_rtu 1 [3; 2; 0; 7] in
-  frame_size (lookup_rule client_decoder 24) [1; 24; 255; 255] = Ok 16711941%Z /\
+  frame_size (lookup_rule client_decoder 24) [1; 24; 255; 255] = Ok 65541%Z /\
   deliveries (rtu_feed cfg_client rtu_init [[1; 24; 255; 255]; f; f; f; f]) = [] /\
   length (r_buf (fst (fst (rtu_feed cfg_client rtu_init [[1; 24; 255; 255]; f; f; f; f])))) = 32%nat.
 Proof. cbv zeta. repeat split; vm_compute; reflexivity. Qed.
